@@ -421,6 +421,12 @@ func (in *Inst) Size() int {
 // enumCap bounds an enumeration so that a cyclic chain cannot run for ever.
 func enumCap(size int) int { return 2*size + 64 }
 
+// BetweenNext, when set, is called after every element an enumeration hands out (before the
+// next one is asked for). Single-goroutine workers use it to interleave NON-modifying calls on
+// the same structure with an enumeration in progress; it must be nil whenever goroutines share
+// this package.
+var BetweenNext func()
+
 const tokMore = "<more-after-size>"
 const tokUnbounded = "<unbounded>"
 
@@ -429,6 +435,16 @@ const tokUnbounded = "<unbounded>"
 // be false.
 func enumerate(mode int32, size int, has func() bool, next func() string) Result {
 	toks := make([]string, 0, size)
+	if BetweenNext != nil {
+		inner := next
+		next = func() string {
+			t := inner()
+			if f := BetweenNext; f != nil {
+				f()
+			}
+			return t
+		}
+	}
 	if mode == 2 {
 		for i := 0; i < size; i++ {
 			toks = append(toks, next())
